@@ -3,6 +3,7 @@
 import sys, os, tempfile, shutil, argparse
 sys.path.insert(0, os.path.dirname(os.path.abspath(__file__)))
 import engine as E
+import replay as RP
 from concurrent.futures import ThreadPoolExecutor
 ap = argparse.ArgumentParser()
 ap.add_argument('spec'); ap.add_argument('configs', nargs='*')
@@ -19,6 +20,10 @@ def job(cfg, can):
     mut = None
     if can:
         c = u.spec.canaries[can]; mut = (c['pattern'], c['replace'])
+    if u.spec.configs[cfg].get('mode') == 'bounded' and u.spec.configs[cfg].get('harness') == 'generated':
+        r = RP.run_bounded_unit(u, cfg, sub, mutate=mut)
+        pr = RP.bounded_reach_probe(u, cfg, sub) if (a.probe and not can and r.status == 'ok') else None
+        return cfg, can, r, pr
     r = E.run_config(u, cfg, sub, mutate=mut)
     pr = None
     if a.probe and not can and r.status == 'ok':
